@@ -726,6 +726,14 @@ def dynamicCastStep {ρ : Type} (ic : Nat × (Unit → K σ (Option ρ))) (resul
 def dynamicCast {ρ : Type} (casts : List (Unit → K σ (Option ρ))) : K σ (Option (Nat × ρ)) :=
   foldBreak dynamicCastStep ((List.range casts.length).zip casts) none
 
+/-! ## the implicitly defined special members (copy / move construction and assignment) and `std::swap` -/
+
+/-- `dst = src` / `T dst{src}`: the target takes the value of the source; the result is (target, source as an lvalue
+keeps it) -/
+def assignObj {τ : Type} (_dst src : τ) : τ × τ := (src, src)
+/-- `std::swap(a, b)` -/
+def swapObj {τ : Type} (a b : τ) : τ × τ := (b, a)
+
 /-! ## monad/bind.hpp, return.hpp, chain.hpp, do.hpp -/
 
 /-- `monad::bind(optional, f)` = `instance<optional>::bind` = `optional::bind` -/
